@@ -196,6 +196,11 @@ def _pin_table(ctx, cfg):
             cells.append(sympd.MaybeNA(SBool(b), SNum(z3.Real("x_%d_%d" % (i, j)))))
         cols[name] = cells
         feats.append(name)
+    if cfg.get("charge_others") is not None:
+        # a designated charge column plus k further columns whose names start with "charge" (one-hot style)
+        cols["Charge"] = [2 + (i % 2) for i in range(n)]
+        for k in range(cfg["charge_others"]):
+            cols["Charge%d" % (k + 2)] = [float((i + k) % 2) for i in range(n)]
     cols[case("peptide")] = ["PEP%d" % i for i in range(n)]
     cols[case("proteins")] = ["PROT%d" % i for i in range(n)]
     order = list(cols)
@@ -261,7 +266,7 @@ def sym_read(ctx, cfg):
     stubs.MODE[0] = "nondet" if cfg.get("sched") else "submission"
     inputs = dict(table=df, column_chunk=cc, row_chunk=rc)
     try:
-        ds = P.read_percolator(p, max_workers=2)
+        ds = P.read_percolator(p, max_workers=2, **(dict(charge_column="Charge") if cfg.get("charge_others") is not None else {}))
     except Unsupported:
         raise
     except Exception as ex:
@@ -280,7 +285,13 @@ def sym_read(ctx, cfg):
         has_na = z3.Or([nabits[(i, j)] for i in range(n)])
         props.append(("feature[%s]_kept_iff_no_missing_value" % f, z3.BoolVal(f in ds.feature_columns) == z3.Not(has_na)))
     reserved = {case(c) for c in RESERVED} | {case(c) for c in opt}
-    props.append(("features_are_non_reserved_columns", z3.BoolVal(all(f in feats for f in ds.feature_columns) and not (set(ds.feature_columns) & reserved))))
+    others = ["Charge%d" % (k + 2) for k in range(cfg.get("charge_others") or 0)]
+    if cfg.get("charge_others") is not None:
+        # the designated charge column is a feature only if there is no other charge column; the others are features
+        props.append(("charge_column_recognised", z3.BoolVal(ds.charge_column == "Charge")))
+        props.append(("designated_charge_column_is_a_feature_iff_no_other_charge_column", z3.BoolVal(("Charge" in ds.feature_columns) == (not others))))
+        props.append(("other_charge_columns_are_features", z3.BoolVal(all(c in ds.feature_columns for c in others))))
+    props.append(("features_are_non_reserved_columns", z3.BoolVal(all(f in feats or f in others or f == "Charge" for f in ds.feature_columns) and not (set(ds.feature_columns) & reserved))))
     sd = ds.spectra_dataframe
     ok = sd is not None and len(sd) == n and set(sd.columns) == set(exp_spec + [case("label")])
     props.append(("one_entry_per_row", z3.BoolVal(bool(ok))))
@@ -315,13 +326,16 @@ def harnesses(tier):
     reads = [dict(rows=2, features=2, encoding="pm1", optional=["expmass"], colchunk=[2, 6], casing=2),
              dict(rows=1, features=2, encoding="pm1", optional=[], colchunk=[2, 5], casing=2, feature_last=True),
              dict(rows=1, features=2, encoding="zero", optional=["expmass"], colchunk=[2, 6], casing=2, tricky_feature_names=True),
+             dict(rows=1, features=1, encoding="pm1", optional=[], colchunk=[3, 5], casing=2, charge_others=1),
+             dict(rows=1, features=1, encoding="pm1", optional=[], colchunk=[3, 5], casing=2, charge_others=0),
              dict(rows=2, features=1, encoding="zero", optional=[], colchunk=[2, 4], casing=0, rotate=3),
              dict(rows=1, features=2, encoding="bool", optional=["expmass", "ret_time", "filename", "calcmass"], colchunk=[3, 7], casing=1, suffix=".parquet")]
     if tier == "thorough":
         reads += [dict(rows=2, features=3, encoding="pm1", optional=["expmass", "ret_time"], colchunk=[2, 8], casing=3, rotate=2, sched=True),
                   dict(rows=3, features=2, encoding="pm1", optional=["filename"], colchunk=[2, 5], casing=2, sched=True),
                   dict(rows=2, features=4, encoding="zero", optional=["expmass"], colchunk=[2, 8], casing=2),
-                  dict(rows=2, features=3, encoding="bool", optional=["filename"], colchunk=[2, 6], casing=1, feature_last=True, rotate=2)]
+                  dict(rows=2, features=3, encoding="bool", optional=["filename"], colchunk=[2, 6], casing=1, feature_last=True, rotate=2),
+                  dict(rows=2, features=1, encoding="zero", optional=["expmass"], colchunk=[2, 6], casing=1, charge_others=2)]
     for cfg in reads:
         hs.append(Harness("read_percolator[%s]" % ",".join("%s=%s" % kv for kv in cfg.items()), cfg, sym_read, real="read",
                           functions=[P.read_percolator, P.create_chunks_with_identifier, P.drop_missing_values_and_fill_spectra_dataframe, U.convert_targets_column, H.find_column, D.OnDiskPsmDataset.__init__],
@@ -383,7 +397,7 @@ def real_read(cfg, inp):
             else:
                 df.to_csv(p, sep="\t", index=False)
             try:
-                ds = mokapot.read_pin(p, max_workers=2)[0]
+                ds = mokapot.read_pin(p, max_workers=2, **(dict(charge_column="Charge") if cfg.get("charge_others") is not None else {}))[0]
             except Exception as ex:
                 return dict(exception=repr(ex), violation="read_pin raised %r (columns %s, column chunk %s)" % (ex, list(df.columns), inp["column_chunk"]))
     finally:
@@ -391,6 +405,10 @@ def real_read(cfg, inp):
     opt = cfg.get("optional", [])
     feats = [c for c in df.columns if c.startswith("feat") or c in ("PeptideLength", "LabelScore")]
     exp_spec = [case(c) for c in ("filename", "scannr", "ret_time", "expmass") if c == "scannr" or c in opt]
+    if cfg.get("charge_others") is not None:
+        # file order; the designated charge column is a feature only without other charge columns
+        others = ["Charge%d" % (k + 2) for k in range(cfg["charge_others"])]
+        feats = [c for c in df.columns if c in feats or c in others or (c == "Charge" and not others)]
     exp_feat = [f for f in feats if not df[f].isna().any()]
     lab = df[case("label")]
     exp_t = [bool(x == 1) if lab.dtype != bool else bool(x) for x in lab]
